@@ -494,10 +494,19 @@ def gen_probes (rng, n):
   for d in D:
     for p in P:
       yield dict(kind="probe", dpid=d, port=p, rdpid=rng.choice(D), rport=rng.choice(P))
+  # one class per length of the textual form (the probe carries the dpid as
+  # hex text and the port as decimal text): 1..16 hex digits
+  def by_digits (k):
+    return rng.randrange(16 ** (k - 1), 16 ** k)
+  for k in range(1, 17):
+    for _ in range(3):
+      yield dict(kind="probe", dpid=by_digits(k), port=rng.choice(P),
+                 rdpid=by_digits(rng.randrange(1, 17)), rport=rng.choice(P))
   for _ in range(n):
-    yield dict(kind="probe", dpid=rng.getrandbits(rng.choice([8, 48, 64])),
-               port=rng.randrange(1, 0xff01),
-               rdpid=rng.getrandbits(rng.choice([8, 48, 64])),
+    yield dict(kind="probe", dpid=by_digits(rng.randrange(1, 17)),
+               port=rng.choice([rng.randrange(1, 10), rng.randrange(10, 100),
+                                rng.randrange(100, 1000), rng.randrange(1, 0xff01)]),
+               rdpid=rng.getrandbits(rng.choice([8, 12, 48, 64])),
                rport=rng.randrange(1, 0xff01))
 
 
